@@ -34,7 +34,7 @@ BUDGET_S = {"quick": 600, "thorough": 1800}
 QUERY_TIMEOUT_MS = {"quick": 30000, "thorough": 60000}
 
 STATES = ["fresh", "preprocessed-only", "settings-only", "unsuccessful-fit", "fitted", "fitted-no-contact-point"]
-CHANGES = ["none", "hash", "regressor", "training_set", "names", "lda", "preprocessing"]
+CHANGES = ["none", "hash", "regressor", "training_set", "names", "lda", "lda-false-vs-none", "names-empty-vs-none", "preprocessing"]
 
 
 def bounds(tier):
@@ -163,12 +163,8 @@ def t_cache(change):
     common.install_abstract_steps(w)
     check_assumptions()
     kw = dict(regressor="Extra Trees", training_set="zef18", names=None, lda=None)
-    r1 = idnt.rate_quality(**kw)
-    n1 = len(made)
     kw2 = dict(kw)
-    if change == "hash":
-        dict.__setitem__(idnt.fit_properties, "hash", "h2")
-    elif change == "regressor":
+    if change == "regressor":
         kw2["regressor"] = "AdaBoost"
     elif change == "training_set":
         kw2["training_set"] = "/some/other/set"
@@ -176,7 +172,15 @@ def t_cache(change):
         kw2["names"] = ["feat_con_apr_sum", "feat_bin_size"]
     elif change == "lda":
         kw2["lda"] = True
-    elif change == "preprocessing":
+    elif change == "lda-false-vs-none":
+        kw["lda"] = False          # first call with False, second with None
+    elif change == "names-empty-vs-none":
+        kw["names"] = []
+    r1 = idnt.rate_quality(**kw)
+    n1 = len(made)
+    if change == "hash":
+        dict.__setitem__(idnt.fit_properties, "hash", "h2")
+    if change == "preprocessing":
         idnt._raw_data["height (measured)"] = idnt._raw_data["tip position"]
         idnt.apply_preprocessing(["compute_tip_position", "correct_force_offset"])
         prove("preprocessing-resets-cache", idnt._rating is None)
